@@ -88,8 +88,9 @@ def run(ctx):
                 debug = rng.random() < 0.5
                 set_debug(debug)
                 outs = []
-                for mode in ({'doraise': 0}, {'doraise': 1}, {'doraise': 1, 'custom': 1, 'xargs': xargs, 'xkw': xkw},
-                             {'doraise': 0, 'custom': 1, 'xargs': xargs, 'xkw': xkw},
+                excls = rng.randrange(len(ev.CUSTOM_CLASSES))
+                for mode in ({'doraise': 0}, {'doraise': 1}, {'doraise': 1, 'custom': 1, 'xargs': xargs, 'xkw': xkw, 'excls': excls},
+                             {'doraise': 0, 'custom': 1, 'xargs': xargs, 'xkw': xkw, 'excls': excls},
                              {'doraise': 1, 'xargs': xargs if rng.random() < 0.5 else [], 'xkw': xkw or {'action': 'x'}}):
                     call = dict(base, authorize=auth, credskind=credskind, **mode)
                     c = ec.enforce_case(rules, call, target, creds, dflt=dflt, registered=registered, enforce_scope=enforce_scope,
@@ -109,6 +110,32 @@ def run(ctx):
                     cases.append({'kind': 'pair', 'a': outs[0]['obs'], 'b': b['obs'], '_call': b['_call'], '_texts': b['_texts'],
                                   '_creds': b['_creds'], '_target': b['_target'], '_dflt': b['_dflt'], '_registered': b['_registered']})
                     n_pairs += 1
+        # one RequestContext object used for several calls, its attributes re-assigned in between: every
+        # call is decided on what the context holds at the time of the call
+        from oslo_context import context as _context
+        for s_i in range(25 if q else 400):
+            rules = [('p:x', ev.role('r1')), ('p:y', ev.Or(ev.role('r2'), ev.generic('project_id', ev.ph('project_id'))))]
+            registered = [('p:x', rng.choice([[], ['project'], ['system'], ['domain', 'project']])), ('p:y', [])]
+            enf = ev.make_enforcer({n: ev.rule_text(t) for n, t in rules}, ('opt', None),
+                                   [(n, list(sc), ev.rule_text(dict(rules)[n])) for n, sc in registered], True)
+            cobj = _context.RequestContext(user_id='u', roles=['r1'], project_id='p', request_id='req-00000000-0000-0000-0000-000000000001')
+            for step in range(4):
+                cobj.roles = rng.choice([['r1'], ['r2'], [], ['r1', 'r2'], ['R1']])
+                r = rng.random()
+                if r < 0.25:
+                    cobj.system_scope, cobj.project_id, cobj.domain_id = 'all', None, None
+                elif r < 0.5:
+                    cobj.system_scope, cobj.project_id, cobj.domain_id = None, None, 'd'
+                else:
+                    cobj.system_scope, cobj.project_id, cobj.domain_id = None, rng.choice(['p', 'q']), None
+                abstract = dict(cobj.to_policy_values())
+                set_debug(rng.random() < 0.3)
+                for doraise in (0, 1):
+                    call = {'by': 'name', 'name': rng.choice(['p:x', 'p:y']), 'doraise': doraise, 'credskind': 'map',
+                            'authorize': 1 if rng.random() < 0.3 else 0}
+                    cases.append(ec.enforce_case(rules, call, {'project_id': 'p'}, abstract, dflt=('opt', None), registered=registered,
+                                                 enforce_scope=True, checklog=1, want='c07', creds_obj=cobj, enforcer=enf,
+                                                 extra={'_session': 'one RequestContext reused, step %d' % step}))
     finally:
         set_debug(False)
     bad = ec.judge(ctx, cases)
